@@ -4431,6 +4431,9 @@ enum PendingInfoResponse {
     module_source_and_info: ModuleSourceAndInfo,
     pending_load: Option<Box<(LoaderChecksum, ModuleInfo)>>,
     is_root: bool,
+    /// The bytes the loader returned (the stored text may be a decoding of
+    /// them), kept for computing the checksum given to the locker.
+    content: Option<Arc<[u8]>>,
   },
   Redirect {
     count: usize,
@@ -5851,6 +5854,7 @@ impl<'a, 'graph> Builder<'a, 'graph> {
                   module_source_and_info,
                   pending_load: Some(Box::new((checksum, module_info))),
                   is_root: options.is_root,
+                  content: None,
                 }
               })
             }
@@ -5898,6 +5902,7 @@ impl<'a, 'graph> Builder<'a, 'graph> {
                   module_source_and_info,
                   pending_load: None,
                   is_root: options.is_root,
+                  content: None,
                 }
               }),
             },
@@ -6161,6 +6166,7 @@ impl<'a, 'graph> Builder<'a, 'graph> {
           options: ParseModuleAndSourceInfoOptions<'_>,
         ) -> Result<PendingInfoResponse, ModuleError> {
           let is_root = options.is_root;
+          let content = options.content.clone();
           parse_module_source_and_info(module_analyzer, options)
             .await
             .map(|module_source_and_info| PendingInfoResponse::Module {
@@ -6168,6 +6174,7 @@ impl<'a, 'graph> Builder<'a, 'graph> {
               module_source_and_info,
               pending_load: None,
               is_root,
+              content: Some(content),
             })
         }
 
@@ -6550,6 +6557,7 @@ impl<'a, 'graph> Builder<'a, 'graph> {
         pending_load,
         module_source_and_info,
         is_root,
+        content,
       } => {
         // this should have been handled by now
         debug_assert_eq!(
@@ -6597,10 +6605,14 @@ impl<'a, 'graph> Builder<'a, 'graph> {
           && let Some(locker) = &mut self.locker
             && !locker.has_remote_checksum(&specifier)
         {
+          // the checksum of what was served, not of its decoding (a BOM is
+          // stripped and other charsets are converted to UTF-8)
           locker.set_remote_checksum(
             &specifier,
             LoaderChecksum::new(LoaderChecksum::r#gen(
-              module_source_and_info.source_bytes(),
+              content
+                .as_deref()
+                .unwrap_or_else(|| module_source_and_info.source_bytes()),
             )),
           );
         }
